@@ -99,7 +99,7 @@ func (a *Analyzer) liveness(fn *ssa.Function) *liveInfo {
 func (a *Analyzer) pruneEnv(fr *frame, b *ssa.BasicBlock, st *State) {
 	live := a.liveness(fr.fn).atEntry[b]
 	for v := range st.Env {
-		if !live[v] {
+		if !live[v] && !a.ghostSet[v] {
 			delete(st.Env, v)
 		}
 	}
